@@ -156,10 +156,11 @@ def published_matrices(V, tmp) -> int:
             if issubclass(cls, core.SingleQubitInstruction):
                 add(cls(reg=r0), {"mn": mn, "qs": [1], "imm": []})
             elif issubclass(cls, core.RotationInstruction):
-                for n, d in ((1, 1), (3, 2), (5, 3), (1, 0), (7, 4), (31, 4)):
+                for n, d in ((1, 1), (3, 2), (5, 3), (1, 0), (7, 4), (31, 4), (255, 8), (77, 16), (255, 20),
+                             (1, 21), (255, 31), (3, 32), (255, 40), (129, 63), (1, 64), (255, 65), (7, 100), (255, 255)):
                     add(cls(reg=r0, imm0=Immediate(n), imm1=Immediate(d)), {"mn": mn, "qs": [1], "imm": [n, d]})
             elif issubclass(cls, core.ControlledRotationInstruction):
-                for n, d in ((1, 1), (3, 2), (8, 4), (24, 4), (5, 3)):
+                for n, d in ((1, 1), (3, 2), (8, 4), (24, 4), (5, 3), (255, 20), (3, 21), (255, 32), (1, 63), (255, 64), (9, 200)):
                     add(cls(reg0=r0, reg1=r1, imm0=Immediate(n), imm1=Immediate(d)), {"mn": mn, "qs": [1, 2], "imm": [n, d]})
             elif issubclass(cls, core.TwoQubitInstruction) and mn != "mov":
                 add(cls(reg0=r0, reg1=r1), {"mn": mn, "qs": [1, 2], "imm": []})
@@ -170,8 +171,14 @@ def published_matrices(V, tmp) -> int:
     for i, obj in insts.items():
         nq = len(samples[i - 1]["g"]["qs"])
         U = np.eye(2**nq, dtype=complex)
+        imm = samples[i - 1]["g"]["imm"]
         for r in den[i]:
-            U = rot_matrix(r["x"][:nq], r["z"][:nq], r["ph"], r["th"]) @ U
+            th = r["th"]
+            if imm and imm[1] > 20:
+                # finer than the specification's angle unit (pi / 2^20): the axis is the specification's, the angle
+                # n pi / 2^d is evaluated by the rig in floating point
+                th = imm[0] * 2.0 ** (20 - imm[1])
+            U = rot_matrix(r["x"][:nq], r["z"][:nq], r["ph"], th) @ U
         try:
             M = np.array(obj.to_matrix(), dtype=complex)
         except Exception as ex:
